@@ -19,7 +19,8 @@
 (* A *configuration* says how the commit and the error handling are written.  *)
 (* "before" = cogent3 before the C19 repairs (/repo 3146aabd5, 846586424,     *)
 (* 459733c1d, 356ae1e38), "now" = the code as it is.                          *)
-(*   commit   "unlink_rename"  dest.unlink() ; src.rename(dest), the rename   *)
+(*   commit   "zip_append"     ZipFile(dest, "a") extended in place (rejected)  *)
+(*            "unlink_rename"  dest.unlink() ; src.rename(dest), the rename   *)
 (*                             sitting in a `finally` clause       (before)   *)
 (*            "replace"        src.replace(dest)                   (now)      *)
 (*   cleanup  "exit_only"      temp dir removed only when the exception was   *)
@@ -43,13 +44,17 @@ CONSTANTS Configs,    \* set of configuration records explored
 VARIABLES cfg, pre, dest, tmp, pc, how, fcall, exc
 vars == <<cfg, pre, dest, tmp, pc, how, fcall, exc>>
 
-DestStates == {"absent", "Old", "New", "Partial"}
+(* For a ".zip" destination the content is the SEQUENCE OF MEMBERS of the archive: Old = the archive as it was  *)
+(* (byte for byte), New = exactly one member holding the new payload, OldNew = the previous member(s) followed  *)
+(* by the new one (what appending in place produces), Partial = anything else (empty / damaged archive).        *)
+DestStates == {"absent", "Old", "New", "OldNew", "Partial"}
 TmpStates  == {"absent", "empty", "Partial", "New"}
-Calls      == {"mkdtemp", "open_tmp", "write", "close", "unlink_dest", "rename", "rmtree"}
+Calls      == {"mkdtemp", "open_tmp", "write", "close", "unlink_dest", "rename", "rmtree",
+               "open_dest", "store"}   \* ZipFile(dest, "a") and storing the staged member into the open archive
 CleanupCalls == {"rmtree"}         \* a fault injected into the cleanup call itself cannot be cleaned up
 Hows       == {"running", "ok", "failed", "crashed"}
 PCs        == {"mkdtemp", "open", "block", "blockclosed", "close", "commit", "rename", "rmtree",
-               "h_unlink", "e_close", "e_rmtree", "done"}
+               "h_unlink", "e_close", "e_rmtree", "zstore", "zstoring", "done"}
 
 Cfg(n, c, cl, w) == [name |-> n, commit |-> c, cleanup |-> cl, wunlink |-> w, closeerr |-> "raise"]
 
@@ -71,8 +76,13 @@ CfgGuardOnly   == Cfg("guard_only", "unlink_rename", "always", FALSE)
 (* behave like a failure of the body.  This configuration swallows the error in __exit__ and commits: the *)
 (* staged file is incomplete (tmp = Partial) when it is moved over the destination.  Atomic rejects it.    *)
 CfgSwallowClose == [Cfg("swallow_close", "replace", "always", FALSE) EXCEPT !.closeerr = "swallow"]
+(* a ".zip" destination extended in place instead of being replaced by a complete new archive: what              *)
+(* atomic_write(in_zip=...) / open_(x.zip, "w") do (known finding R5), and what every public write() to a ".zip"   *)
+(* path would do if atomic_write treated such a path as in_zip.  Atomic rejects it: a second write leaves the old   *)
+(* and the new member, a failure or kill while storing leaves a damaged archive.                                    *)
+CfgZipAppend == Cfg("zip_append", "zip_append", "always", FALSE)
 (* every configuration below violates Atomic; MC_AtomicWrite_cx.cfg checks that each one is rejected *)
-RejectedConfigs == HistoricConfigs \cup {CfgReplaceOnly, CfgGuardOnly, CfgSwallowClose}
+RejectedConfigs == HistoricConfigs \cup {CfgReplaceOnly, CfgGuardOnly, CfgSwallowClose, CfgZipAppend}
 AllConfigs == CurrentConfigs \cup RejectedConfigs
 
 TypeOK == /\ cfg \in AllConfigs
@@ -130,7 +140,10 @@ NextCall(p) ==
       [] p = "open"     -> {"open_tmp"}
       [] p = "block"    -> {"write", "close"}
       [] p = "close"    -> {"close"}
-      [] p = "commit"   -> IF cfg.commit = "unlink_rename" THEN {"unlink_dest"} ELSE {"rename"}
+      [] p = "commit"   -> CASE cfg.commit = "unlink_rename" -> {"unlink_dest"}
+                             [] cfg.commit = "zip_append"    -> {"open_dest"}
+                             [] OTHER                        -> {"rename"}
+      [] p \in {"zstore", "zstoring"} -> {"store"}
       [] p = "rename"   -> {"rename"}
       [] p = "rmtree"   -> {"rmtree"}
       [] p = "h_unlink" -> {"unlink_dest"}
@@ -157,6 +170,15 @@ RenameT   == /\ Running
              /\ IF exc   \* the rename ran in the `finally` of a failed unlink: the OSError now propagates
                    THEN /\ Fail /\ UNCHANGED <<cfg, pre, fcall, exc>>
                    ELSE Goto("rmtree")
+(* commit "zip_append" (atomic_write(..., in_zip=...)._close_rename_zip): the member is staged as a plain file and  *)
+(* the DESTINATION archive is opened with ZipFile(dest, "a") and extended in place.  Opening creates an empty     *)
+(* archive when there was none; storing overwrites the old central directory before the new one is written at     *)
+(* close, so the archive is damaged until the store completes, and afterwards holds the old members AND the new.  *)
+OpenDestT == /\ Running /\ pc = "commit" /\ cfg.commit = "zip_append"
+             /\ dest' = (IF dest = "absent" THEN "Partial" ELSE dest) /\ UNCHANGED tmp /\ Goto("zstore")
+StoreBeginT == /\ Running /\ pc = "zstore" /\ dest' = "Partial" /\ UNCHANGED tmp /\ Goto("zstoring")
+StoreEndT == /\ Running /\ pc = "zstoring"
+             /\ dest' = (IF pre = "Old" THEN "OldNew" ELSE "New") /\ UNCHANGED tmp /\ Goto("rmtree")
 RmtreeT   == /\ Running /\ pc = "rmtree" /\ tmp' = "absent" /\ UNCHANGED dest
              /\ pc' = "done" /\ how' = "ok" /\ UNCHANGED <<cfg, pre, fcall, exc>>
 
@@ -198,6 +220,8 @@ FaultT(c) ==
                    ELSE pc' = "rename" /\ exc' = TRUE /\ UNCHANGED how      \* finally: src.rename(dest)
          [] pc = "h_unlink" -> pc' = "e_close" /\ UNCHANGED <<tmp, how, exc>>  \* except Exception: pass
          [] c = "rename"   -> (IF cfg.cleanup = "always" THEN ToCleanup ELSE Propagate) /\ UNCHANGED tmp
+         [] c \in {"open_dest", "store"} ->   \* the archive keeps whatever the in-place append had done to it
+                (IF cfg.cleanup = "always" THEN ToCleanup ELSE Propagate) /\ UNCHANGED tmp
          [] c = "rmtree"   -> Propagate /\ tmp' \in {tmp, "empty"}          \* rmtree may have removed the file already
          [] OTHER          -> FALSE
 
@@ -213,6 +237,9 @@ BlockClose == BlockCloseT /\ Log("close", <<"block">>)
 BlockEnd == BlockEndT /\ Log("BlockEnd", <<>>)
 Close == CloseT /\ Log("close", <<>>)
 UnlinkDest == UnlinkDestT /\ Log("unlink_dest", <<>>)
+OpenDest == OpenDestT /\ Log("open_dest", <<>>)
+StoreBegin == StoreBeginT /\ Log("store", <<"begin">>)
+StoreEnd == StoreEndT /\ Log("StoreEnd", <<>>)
 Rename == RenameT /\ Log("rename", <<>>)
 Rmtree == RmtreeT /\ Log("rmtree", <<>>)
 FormatterRaises == FormatterRaisesT /\ Log("FormatterRaises", <<>>)
@@ -230,11 +257,13 @@ CallT(c) ==
       [] c = "unlink_dest" -> UnlinkDestT \/ HUnlinkT
       [] c = "rename"      -> RenameT
       [] c = "rmtree"      -> RmtreeT \/ ERmtreeT
+      [] c = "open_dest"   -> OpenDestT
+      [] c = "store"       -> StoreBeginT
       [] OTHER             -> FALSE
-SilentT == BlockEndT \/ FormatterRaisesT
+SilentT == BlockEndT \/ FormatterRaisesT \/ StoreEndT
 
 Next == \/ Mkdtemp \/ OpenTmp \/ Write \/ BlockClose \/ BlockEnd \/ Close
-        \/ UnlinkDest \/ Rename \/ Rmtree
+        \/ UnlinkDest \/ Rename \/ Rmtree \/ OpenDest \/ StoreBegin \/ StoreEnd
         \/ FormatterRaises \/ HUnlink \/ EClose \/ ERmtree
         \/ \E c \in Calls : Fault(c)
         \/ Crash
@@ -244,6 +273,7 @@ Spec == Init /\ [][Next]_vars
 (* every behaviour ends: the program counter only moves forward (Write loops are the only cycles) *)
 Terminates == <>[](pc = "done")
 FairSpec == Spec /\ WF_vars(Mkdtemp \/ OpenTmp \/ BlockEnd \/ Close \/ UnlinkDest \/ Rename \/ Rmtree
+                              \/ OpenDest \/ StoreBegin \/ StoreEnd
                               \/ HUnlink \/ EClose \/ ERmtree)
 
 (* without any Crash / Fault / FormatterRaises the write succeeds *)
